@@ -5,7 +5,9 @@ from acverif.core import only
 from acverif.mir import short, tstr, subterms, affine_str
 from acverif.rl import (is_call, peel, peel_all, is_var, is_agg, is_const, self_field, bool_gates, try_gates, discr_gates,
                         reachable_without, must_pass, line_of, decision_table, rewrite, expand_vars, atom, cmp_norm, cmp_true_when,
-                        inline_closures, strip_convs, eq_cond, variant_name, var_defs_terms)
+                        inline_closures, strip_convs, eq_cond, variant_name, var_defs_terms, param_at, param_of_type, unwrapped,
+                        enum_gates, arm_edges, other_edges, result_gates, value_roots, Eval, EvalPanic, Unsupported)
+from acverif.sym import summarize, canon, cstr, TooManyPaths, enum_table, teval, row_holds, by_cstr
 
 PERF = ('default', 'logging', 'perf')
 PI = '<util::prefilter::%s as util::prefilter::PrefilterI>::find_in'
@@ -34,62 +36,97 @@ def start_plus_i(t):
     return isinstance(t, tuple) and t[0] == 'op' and t[1] == 'Add' and ((span_field(t[2], 'start') and is_var(t[3], 'i')) or (span_field(t[3], 'start') and is_var(t[2], 'i')))
 
 
+def _find_in_rows(cx, name):
+    b = cx.body(PI % name)
+    try:
+        return b, summarize(cx.facts, b)
+    except TooManyPaths:
+        return b, None
+
+
+def _search_contract(cx, name, is_search, some_spec, what):
+    """find_in = match SEARCH { None => Candidate::None, Some(i) => some_spec(i) } in any spelling."""
+    b, rows = _find_in_rows(cx, name)
+    why = None
+    if rows is None:
+        why = 'too many paths'
+    else:
+        rows = [r for r in rows if r.end == 'return']
+        seen = set()
+        for r in rows:
+            if len(r.conds) != 1 or r.conds[0][0][0] != 'discr' or not is_search(b, r.conds[0][0][1]):
+                why = 'a result depends on something else than the search outcome: %s' % [(tstr(c, 120), v) for c, v in r.conds]
+                break
+            S = r.conds[0][0][1]
+            v = r.conds[0][1]
+            seen.add(v)
+            if v == 0:
+                if not is_agg(r.ret, r'Candidate$', 'None'):
+                    why = 'no occurrence yields %s instead of Candidate::None' % tstr(r.ret, 120)
+            elif v == 1:
+                i = ('f', ('dc', S, 'Some'), '0')
+                exp = some_spec(b, S, i)
+                if cstr(r.ret) != cstr(exp):
+                    why = 'an occurrence at i yields %s, expected %s' % (tstr(canon(r.ret), 300), tstr(canon(exp), 300))
+            else:
+                why = 'unexpected decision %r' % (v,)
+            if why:
+                break
+        if why is None and seen != {0, 1}:
+            why = 'found/not-found cases are not both handled (%s)' % sorted(seen)
+    cx.report('R05.3', b, 'contract', why is None, what if why is None else '%s::find_in deviates from its contract: %s' % (name, why))
+
+
+def _hay_span(b, t):
+    return is_call(t, r'core::ops::Index::index$') and peel_all(t[2][0]) == param_at(b, 2) and peel_all(t[2][1]) == param_at(b, 3)
+
+
 @only(PERF)
 def r05_3(cx):
     """candidate arithmetic of the eight PrefilterI::find_in implementations (also R10.4)"""
     n = 0
+
+    def fld(x, *fs):
+        for f in fs:
+            x = ('f', x, f)
+        return x
     for name, k in (('StartBytesOne', 1), ('StartBytesTwo', 2), ('StartBytesThree', 3), ('RareBytesOne', 1), ('RareBytesTwo', 2), ('RareBytesThree', 3)):
-        b, t = find_in_term(cx, name)
         n += 1
-        ok = False
-        why = tstr(t, 400)
-        if is_call(t, r'Option::map_or$') and is_agg(t[2][1], r'Candidate$', 'None') and t[2][2] == ('s', 'fn:util::prefilter::Candidate::PossibleStartOfMatch'):
-            m = t[2][0]
-            if is_call(m, r'Option::map$') and m[2][1][0] == 'lam':
-                srch, lam = m[2][0], m[2][1][3]
-                fn = 'memchr::memchr%s$' % ('' if k == 1 else str(k))
-                oks = is_call(srch, fn) and hay_span(srch[2][-1])
-                bytes_ = [a for a in srch[2][:-1]] if oks else []
-                okb = len(bytes_) == k and sorted(tstr(a) for a in bytes_) == sorted('self.byte%d' % (i + 1) for i in range(k))
-                if name.startswith('StartBytes'):
-                    okl = start_plus_i(lam)
-                    spec = 'span.start + i'
-                else:
-                    okl = False
-                    spec = 'max(span.start, (span.start + i) (-) offset of the byte found)'
-                    if is_call(lam, r'core::cmp::max$') and len(lam[2]) == 2:
-                        a = [x for x in lam[2] if span_field(x, 'start')]
-                        s = [x for x in lam[2] if is_call(x, r'core::num::saturating_sub$')]
-                        if len(a) == 1 and len(s) == 1 and start_plus_i(s[0][2][0]):
-                            off = s[0][2][1]
-                            if k == 1:
-                                okl = tstr(off) == 'self.offset.max'
-                            else:
-                                okl = (off[0] == 'f' and off[2] == 'max' and off[1][0] == 'idx' and tstr(off[1][1]) == 'self.offsets.set'
-                                       and off[1][2][0] == 'idx' and is_var(off[1][2][1], 'haystack') and start_plus_i(off[1][2][2]))
-                ok = oks and okb and okl
-                why = 'search ok=%s bytes ok=%s candidate ok=%s: %s' % (oks, okb, okl, tstr(t, 300))
-        cx.report('R05.3', b, 'contract', ok, 'searches haystack[span] for its %d byte(s); candidate = %s; None -> Candidate::None' % (k, spec if ok else '') if ok else '%s::find_in deviates from its contract (%s)' % (name, why))
+        fn = r'memchr::memchr%s$' % ('' if k == 1 else str(k))
+
+        def is_search(b, S, k=k, fn=fn):
+            if not (is_call(S, fn) and len(S[2]) == k + 1 and _hay_span(b, S[2][-1])):
+                return False
+            return sorted(cstr(a) for a in S[2][:-1]) == sorted(cstr(fld(param_at(b, 1), 'byte%d' % (i + 1))) for i in range(k))
+
+        def some_spec(b, S, i, name=name, k=k):
+            SELF, HAY, SPAN = param_at(b, 1), param_at(b, 2), param_at(b, 3)
+            pos = ('op', 'Add', fld(SPAN, 'start'), i)
+            if name.startswith('StartBytes'):
+                e = pos
+            else:
+                off = fld(SELF, 'offset', 'max') if k == 1 else ('f', ('idx', fld(SELF, 'offsets', 'set'), ('idx', HAY, pos)), 'max')
+                e = ('call', 'core::cmp::max', [fld(SPAN, 'start'), ('call', 'core::num::saturating_sub', [pos, off], None)], None)
+            return ('agg', 'util::prefilter::Candidate', 'PossibleStartOfMatch', {'0': e})
+        _search_contract(cx, name, is_search, some_spec, 'searches haystack[span] for its %d byte(s); candidate = %s; None -> Candidate::None (decided on the path summary: spelling-independent)' %
+                         (k, 'span.start + i' if name.startswith('StartBytes') else 'max(span.start, (span.start + i) (-) offset of the byte found)'))
     if cx.config in ('default', 'logging'):
-        b, t = find_in_term(cx, 'Memmem')
         n += 1
-        ok = False
-        if is_call(t, r'Option::map_or$') and is_agg(t[2][1], r'Candidate$', 'None') and t[2][2][0] == 'lam':
-            srch, lam = t[2][0], t[2][2][3]
-            oks = is_call(srch, r'memchr::memmem::Finder::find$') and tstr(srch[2][0]) == 'self.0' and hay_span(srch[2][1])
-            okl = False
-            if is_agg(lam, r'Candidate$', 'Match') and is_call(lam[3]['0'], r'util::search::Match::new$'):
-                pid, rg = lam[3]['0'][2]
-                if pid[0] == 'k' and pid[1].endswith('PatternID::ZERO') and is_agg(rg, r'core::ops::Range$'):
-                    s, e = rg[3]['start'], rg[3]['end']
-                    okl = start_plus_i(s) and e[0] == 'op' and e[1] == 'Add' and e[2] == s and is_call(e[3], r'core::slice::len$') and is_call(e[3][2][0], r'Finder::needle$')
-            ok = oks and okl
-        cx.report('R05.3', b, 'contract', ok, 'searches haystack[span]; match = (PatternID::ZERO, span.start+i .. span.start+i+needle.len())' if ok else 'Memmem::find_in deviates: %s' % tstr(t, 400))
-    b, t = find_in_term(cx, 'Packed')
+
+        def is_search(b, S):
+            return is_call(S, r'memchr::memmem::Finder::find$') and cstr(S[2][0]) == cstr(fld(param_at(b, 1), '0')) and _hay_span(b, S[2][1])
+
+        def some_spec(b, S, i):
+            SELF, SPAN = param_at(b, 1), param_at(b, 3)
+            pos = ('op', 'Add', fld(SPAN, 'start'), i)
+            ln = ('call', 'core::slice::len', [('call', 'memchr::memmem::Finder::needle', [fld(SELF, '0')], None)], None)
+            zero = [v for p, v in cx.facts.consts.items() if p.endswith('PatternID::ZERO')] if hasattr(cx.facts, 'consts') else []
+            return ('agg', 'util::prefilter::Candidate', 'Match', {'0': ('call', 'util::search::Match::new', [
+                ('k', 'util::primitives::PatternID::ZERO', None), ('agg', 'core::ops::Range', 'Range', {'start': pos, 'end': ('op', 'Add', pos, ln)})], None)})
+        _search_contract(cx, 'Memmem', is_search, some_spec, 'searches haystack[span]; match = (PatternID::ZERO, span.start+i .. span.start+i+needle.len())')
     n += 1
-    ok = (is_call(t, r'Option::map_or$') and is_agg(t[2][1], r'Candidate$', 'None') and t[2][2] == ('s', 'fn:util::prefilter::Candidate::Match')
-          and is_call(t[2][0], r'packed::api::Searcher::find_in$') and tstr(t[2][0][2][0]) == 'self.0' and is_var(t[2][0][2][1], 'haystack') and is_var(t[2][0][2][2], 'span'))
-    cx.report('R05.3', b, 'contract', ok, 'passes (haystack, span) to the packed searcher; Some(m) -> Candidate::Match(m)' if ok else 'Packed::find_in deviates: %s' % tstr(t, 300))
+    _search_contract(cx, 'Packed', lambda b, S: is_call(S, r'packed::api::Searcher::find_in$') and cstr(S[2][0]) == cstr(fld(param_at(b, 1), '0')) and peel_all(S[2][1]) == param_at(b, 2) and peel_all(S[2][2]) == param_at(b, 3),
+                     lambda b, S, i: ('agg', 'util::prefilter::Candidate', 'Match', {'0': i}), 'passes (haystack, span) to the packed searcher; Some(m) -> Candidate::Match(m)')
     cx.floor('R05.3', 'PrefilterI::find_in implementations checked', n, 8 if cx.config in ('default', 'logging') else 7)
     # forwarders
     a = cx.body('<alloc::sync::Arc<P> as util::prefilter::PrefilterI>::find_in')
@@ -215,28 +252,28 @@ def r05_2(cx):
 def r05_4(cx):
     """which prefilter may exist"""
     b = cx.body('util::prefilter::Builder::build')
-    en = bool_gates(b, lambda x: self_field(x, 'enabled'))
-    ci = bool_gates(b, lambda x: self_field(x, 'ascii_case_insensitive'))
-    builds = {nm: b.calls(pat) for nm, pat in (('memmem', r'MemmemBuilder::build$'), ('start', r'StartBytesBuilder::build$'), ('rare', r'RareBytesBuilder::build$'))}
-    packed_sites = [bi for bi, t in b.calls(r'Option::and_then$|packed::api::Builder::build$') if 'packed' in tstr(b.call_term(bi, t))]
-    cut_en = [e for g in en for e in g[2]]
-    allb = [bi for v in builds.values() for bi, t in v] + packed_sites
-    ok = bool(en) and bool(allb) and not reachable_without(b, allb, cut_en)
-    cx.report('R05.4', b, 'enabled-gate', ok, 'no prefilter is built unless the builder is still enabled (no empty pattern seen)' if ok else 'a prefilter can be built although the builder was disabled by an empty pattern')
-    cut_ci = [e for g in ci for e in g[3]]
-    okm = bool(ci) and len(builds['memmem']) == 1 and not reachable_without(b, [builds['memmem'][0][0]], cut_ci)
-    cx.report('R05.4', b, 'memmem-case', okm, 'the single-substring prefilter is only considered without ASCII case insensitivity' if okm else 'memmem prefilter reachable under ascii_case_insensitive')
-    okp = bool(ci) and bool(packed_sites) and not reachable_without(b, packed_sites, cut_ci)
-    cx.report('R05.4', b, 'packed-case', okp, 'the packed prefilter is only built without ASCII case insensitivity' if okp else 'packed prefilter reachable under ascii_case_insensitive')
-    # the disabled edge returns None
-    okn = bool(en)
-    for g in en:
-        for _, tg in g[3]:
-            r = b.reach(tg)
-            vals = [b.rvalue_term(st['r'], 0, y) for y in r for st in b.blocks[y]['stmts'] if st['k'] == 'assign' and st['p']['l'] == 0 and not st['p']['pr']]
-            if not vals or not all(is_agg(v, r'Option$', 'None') for v in vals):
-                okn = False
-    cx.report('R05.4', b, 'disabled-none', okn, 'a disabled builder yields None' if okn else 'a disabled builder can yield a prefilter')
+    try:
+        rows = summarize(cx.facts, b)
+    except TooManyPaths:
+        rows = None
+    if rows is None:
+        cx.bad('R05.4', b, 'table', 'prefilter::Builder::build has too many paths to tabulate')
+    else:
+        BUILDS = r'(MemmemBuilder|StartBytesBuilder|RareBytesBuilder|packed::api::Builder)::build$'
+        en = lambda r: r.cond('self.enabled')
+        ci = lambda r: r.cond('self.ascii_case_insensitive')
+        bad = [r for r in rows if r.calls(BUILDS) and en(r) is not True]
+        cx.report('R05.4', b, 'enabled-gate', not bad and len(rows) > 1, 'no prefilter is built unless the builder is still enabled (no empty pattern seen); %d paths tabulated' % len(rows) if not bad else
+                  'a prefilter can be built although the builder was disabled by an empty pattern (path %s)' % bad[0].path[:12])
+        bad = [r for r in rows if r.calls(r'MemmemBuilder::build$') and ci(r) is not False]
+        seen = any(r.calls(r'MemmemBuilder::build$') for r in rows)
+        cx.report('R05.4', b, 'memmem-case', seen and not bad, 'the single-substring prefilter is only considered without ASCII case insensitivity' if seen and not bad else 'memmem prefilter reachable under ascii_case_insensitive')
+        bad = [r for r in rows if r.calls(r'packed::api::Builder::build$') and ci(r) is not False]
+        seen = any(r.calls(r'packed::api::Builder::build$') for r in rows)
+        cx.report('R05.4', b, 'packed-case', seen and not bad, 'the packed prefilter is only built without ASCII case insensitivity' if seen and not bad else 'packed prefilter reachable under ascii_case_insensitive')
+        dis = [r for r in rows if en(r) is False]
+        okn = bool(dis) and all(r.end == 'return' and is_agg(r.ret, r'Option$', 'None') for r in dis)
+        cx.report('R05.4', b, 'disabled-none', okn, 'a disabled builder yields None' if okn else 'a disabled builder can yield a prefilter')
     a = cx.body('util::prefilter::Builder::add')
     eg = bool_gates(a, lambda x: is_call(x, r'core::slice::is_empty$') and is_var(peel(x[2][0]), 'bytes'))
     st = [(bi, v) for bi, si, tt, v, s in a.field_stores() if self_field(tt, 'enabled')]
@@ -250,41 +287,46 @@ def r05_4(cx):
     cx.report('R05.4', a, 'all-subbuilders', okall, 'every pattern is forwarded to the start-byte, rare-byte, memmem and packed builders' if okall else 'only %d sub-builders receive the pattern' % len(adds))
     # MatchKind::as_packed
     ap = cx.body('util::search::MatchKind::as_packed')
-    tb = decision_table(ap)
-    ok = tb is not None
-    if tb:
-        rows = {}
-        for conds, out, path in tb:
-            dv = [v for c, v in conds if c[0] == 'discr']
-            nm = variant_name(cx.facts, 'util::search::MatchKind', dv[0]) if dv else None
-            if is_agg(out, r'Option$', 'None'):
-                rows[nm] = None
-            elif is_agg(out, r'Option$', 'Some') and is_agg(out[3]['0'], r'packed::api::MatchKind$'):
-                rows[nm] = out[3]['0'][2]
+    tab = enum_table(cx.facts, [r for r in summarize(cx.facts, ap) if r.end == 'return'], 'util::search::MatchKind', lambda x: peel_all(x) == param_at(ap, 1))
+    got = {}
+    for nm, rs in tab.items():
+        vals = set()
+        for r in rs:
+            if is_agg(r.ret, r'Option$', 'None'):
+                vals.add(None)
+            elif is_agg(r.ret, r'Option$', 'Some') and is_agg(r.ret[3]['0'], r'packed::api::MatchKind$'):
+                vals.add(r.ret[3]['0'][2])
             else:
-                rows[nm] = '?'
-        ok = rows == {'Standard': None, 'LeftmostFirst': 'LeftmostFirst', 'LeftmostLongest': 'LeftmostLongest'}
-    cx.report('R05.4', ap, 'as_packed', ok, 'as_packed: Standard -> None, LeftmostFirst/Longest -> the same packed kind' if ok else 'MatchKind::as_packed table deviates: %s' % (rows if tb else None))
+                vals.add('?')
+        got[nm] = sorted(vals, key=str)
+    ok = got == {'Standard': [None], 'LeftmostFirst': ['LeftmostFirst'], 'LeftmostLongest': ['LeftmostLongest']}
+    cx.report('R05.4', ap, 'as_packed', ok, 'as_packed: Standard -> None, LeftmostFirst/Longest -> the same packed kind' if ok else 'MatchKind::as_packed table deviates: %s' % got)
     # memmem: exactly one pattern
     ma = cx.body('util::prefilter::MemmemBuilder::add')
-    ones = [(bi, v) for bi, si, tt, v, s in ma.field_stores() if self_field(tt, 'one')]
-    cg = []
-    for blk, sc in ma.switches():
-        if sc[0] != 'bool':
-            continue
-        c = rewrite(sc[1], lambda y: atom('CNT') if self_field(y, 'count') else None)
-        if cmp_norm(c) is None or 'CNT' not in cmp_norm(c)[2]:
-            continue
-        one = cmp_true_when(c, {'CNT': 1})
-        two = cmp_true_when(c, {'CNT': 2})
-        if one is None or one == two:
-            continue
-        cg.append((blk, [(blk, t) for t in (sc[2] if one else sc[3])]))
-    some_st = [bi for bi, v in ones if is_agg(v, r'Option$', 'Some')]
-    ok = bool(cg) and len(some_st) == 1 and not reachable_without(ma, some_st, [e for g in cg for e in g[1]])
-    cnt = [(bi, v) for bi, si, tt, v, s in ma.field_stores() if self_field(tt, 'count')]
-    okc = len(cnt) == 1 and affine_str(cnt[0][1]).replace(' ', '') == '+self.count+1' and all(must_pass(ma, [g[0]], [cnt[0][0]]) for g in cg)
-    cx.report('R05.4', ma, 'single-pattern', ok and okc, 'the memmem needle is kept only while exactly one pattern has been added' if ok and okc else 'MemmemBuilder::add can keep a needle for more than one pattern')
+    rows = [r for r in summarize(cx.facts, ma) if r.end == 'return']
+    why = None
+    BY = param_at(ma, 2)
+    try:
+        for n in (0, 1, 2, 3, 7):
+            sel = [r for r in rows if row_holds(r, by_cstr({'self.count': n}))]
+            if len(sel) != 1:
+                why = '%d paths for count = %d' % (len(sel), n)
+                break
+            st = {cstr(p): v for p, v in sel[0].stores()}
+            cnt, one = st.get('self.count'), st.get('self.one')
+            if cnt is None or teval(cnt, by_cstr({'self.count': n})) != n + 1:
+                why = 'count is not incremented by one'
+            elif one is None:
+                why = 'the needle is left as it was when the pattern number %d is added' % (n + 1)
+            elif n == 0 and not (is_agg(one, r'Option$', 'Some') and is_call(peel_all(one[3]['0']), r'to_vec$|to_owned$|Vec.*::from$') and peel_all(peel_all(one[3]['0'])[2][0]) == BY):
+                why = 'the first pattern is not kept as the needle (%s)' % tstr(one, 100)
+            elif n > 0 and not is_agg(one, r'Option$', 'None'):
+                why = 'a needle is kept although %d patterns were added' % (n + 1)
+            if why:
+                break
+    except (Unsupported, EvalPanic) as e:
+        why = 'cannot evaluate: %s' % e
+    cx.report('R05.4', ma, 'single-pattern', why is None, 'the memmem needle is kept only while exactly one pattern has been added (count+1; one = Some(bytes) iff count becomes 1, else None)' if why is None else 'MemmemBuilder::add deviates: ' + why)
     for nm in ('StartBytesBuilder', 'RareBytesBuilder'):
         if cx.config not in PERF:
             continue
@@ -334,45 +376,34 @@ def r05_5(cx):
 # ------------------------------------------------------------------------------------------------- C10
 def r10_1(cx):
     s = cx.body("util::search::Input::<'h>::set_span")
-    st = [(bi, si, tt, v) for bi, si, tt, v, x in s.field_stores() if self_field(tt, 'span')]
-    HL = atom('HLEN')
-
-    def norm(y):
-        if is_call(y, r'core::slice::len$') and self_field(peel(y[2][0]), 'haystack'):
-            return HL
-        if is_call(y, r'Input::haystack$'):
-            return None
-        if y[0] == 'f' and y[2] == 'end' and is_var(y[1], 'span'):
-            return atom('E')
-        if y[0] == 'f' and y[2] == 'start' and is_var(y[1], 'span'):
-            return atom('S')
-        if is_call(y, r'core::num::wrapping_add$') and y[2][1] == ('c', 1):
-            return ('op', 'Add', y[2][0], ('c', 1))
-        return None
-    g1, g2 = [], []
-    for blk, sc in s.switches():
-        if sc[0] != 'bool':
-            continue
-        c = rewrite(rewrite(strip_convs(sc[1]), norm), norm)
-        cn = cmp_norm(c)
-        if cn is None:
-            continue
-        for target, lst in ((cmp_norm(('op', 'Le', atom('E'), HL)), g1), (cmp_norm(('op', 'Le', atom('S'), ('op', 'Add', atom('E'), ('c', 1)))), g2)):
-            if cn == target:
-                lst.append((blk, [(blk, t) for t in sc[2]], [(blk, t) for t in sc[3]]))
-            elif negate(cn) == target:
-                lst.append((blk, [(blk, t) for t in sc[3]], [(blk, t) for t in sc[2]]))
-    ok = len(st) == 1 and bool(g1) and bool(g2)
-    if ok:
-        ok = not reachable_without(s, [st[0][0]], [e for g in g1 for e in g[1]]) and not reachable_without(s, [st[0][0]], [e for g in g2 for e in g[1]])
-        # failing edges diverge
-        for g in g1 + g2:
-            for _, tg in g[2]:
-                if any(s.blocks[x]['term']['k'] == 'return' for x in s.reach(tg, cut_blocks=[g0[0] for g0 in g1 + g2])):
-                    ok = False
-    cx.report('R10.1', s, 'validation', ok, 'span is stored only if end <= haystack.len() and start <= end + 1; otherwise set_span panics' if ok else 'Input::set_span can store a span that violates end <= len && start <= end + 1')
-    okv = len(st) == 1 and is_var(peel_all(expand_vars(s, st[0][3])), 'span')
-    cx.report('R10.1', s, 'stores-argument', okv, 'the stored span is the argument' if okv else 'set_span stores something else than its argument')
+    rows = summarize(cx.facts, s)
+    SP = param_at(s, 2)
+    why = None
+    n = 0
+    try:
+        for S in range(5):
+            for E in range(5):
+                for L in range(5):
+                    n += 1
+                    at = by_cstr({cstr(('f', SP, 'start')): S, cstr(('f', SP, 'end')): E, 'core::slice::len(self.haystack)': L,
+                                  'core::slice::len(util::search::Input::haystack(self))': L})
+                    sel = [r for r in rows if row_holds(r, at)]
+                    valid = E <= L and S <= E + 1
+                    if len(sel) != 1:
+                        why = '%d paths for start=%d end=%d len=%d' % (len(sel), S, E, L)
+                    elif valid and not (sel[0].end == 'return' and [cstr(p) for p, v in sel[0].stores()] == ['self.span'] and cstr(sel[0].stores()[0][1]) == cstr(SP)):
+                        why = 'a valid span (start=%d end=%d len=%d) is not stored as given' % (S, E, L)
+                    elif not valid and sel[0].end != 'diverge':
+                        why = 'the invalid span start=%d end=%d for a haystack of length %d is accepted' % (S, E, L)
+                    if why:
+                        break
+                if why:
+                    break
+            if why:
+                break
+    except (Unsupported, EvalPanic) as e:
+        why = 'cannot evaluate: %s' % e
+    cx.report('R10.1', s, 'validation', why is None, 'span is stored (as given) only if end <= haystack.len() and start <= end + 1; otherwise set_span panics (all %d orderings of start, end, end+1, len tabulated)' % n if why is None else 'Input::set_span deviates: ' + why)
     # writers of Input.span
     writers = []
     for p, b in cx.facts.bodies.items():
